@@ -628,10 +628,10 @@ def m_zeros(interp, n, dtype=float):
         from .interp import ProgExc
         raise ProgExc(ValueError, "negative dimensions")
     if dt.kind in "iu" and dt != np.dtype('uint8'):
-        # small index/width arrays: a length fixed by the path condition is made concrete (case split 0..16)
-        for k in range(17):
-            if interp.truth(n == k):
-                return ListArr([0] * k, dt)
+        # small index/width arrays: a length fixed by the path condition is made concrete
+        k = sym.get_state().forced_int(n)
+        if k is not None and 0 <= k <= 16:
+            return ListArr([0] * k, dt)
     if dt == np.dtype('uint8') and interp.call_stack and interp.call_stack[-1].endswith("fromfile"):
         return ByteBuf(n).view()
     return AbsArr(n, dt, ("zeros",))
